@@ -1,0 +1,119 @@
+//go:build verif
+
+package lungo
+
+import (
+	"context"
+	"runtime"
+	"sync/atomic"
+)
+
+// VerifInfo is passed to VerifHook at every verification point.
+type VerifInfo struct {
+	// Goroutine is the id of the calling goroutine.
+	Goroutine uint64
+
+	// Point is the name of the verification point.
+	Point string
+
+	// HasTxn, TokenInUse and Alive describe the engine at the point (zero if
+	// the point has no engine). They are read without synchronization unless
+	// the point lies inside the engine mutex; a controller that runs one
+	// goroutine at a time gets consistent values.
+	HasTxn     bool
+	TokenInUse bool
+	Alive      bool
+
+	// Engine and Stream identify the objects the point belongs to (may be nil).
+	Engine *Engine
+	Stream *Stream
+}
+
+type verifHookFunc func(name string, info VerifInfo)
+
+var verifHook atomic.Pointer[verifHookFunc]
+
+// VerifHook is called at every verification point when no hook has been
+// installed through SetVerifHook. Set it before any goroutine uses an engine.
+var VerifHook func(name string, info VerifInfo)
+
+func verifLoadHook() verifHookFunc {
+	if h := verifHook.Load(); h != nil {
+		return *h
+	}
+	return VerifHook
+}
+
+// SetVerifHook installs (or with nil removes) the function called at every
+// verification point. The function may block.
+func SetVerifHook(fn func(name string, info VerifInfo)) {
+	if fn == nil {
+		verifHook.Store(nil)
+		return
+	}
+	h := verifHookFunc(fn)
+	verifHook.Store(&h)
+}
+
+// VerifGoroutineID returns the id of the calling goroutine.
+func VerifGoroutineID() uint64 {
+	var buf [64]byte
+	n := runtime.Stack(buf[:], false)
+	// "goroutine 123 [running]:"
+	var id uint64
+	for _, c := range buf[len("goroutine "):n] {
+		if c < '0' || c > '9' {
+			break
+		}
+		id = id*10 + uint64(c-'0')
+	}
+	return id
+}
+
+// VerifSnapshot reads the engine state without taking any lock. It is only
+// meaningful while all goroutines using the engine are parked or blocked.
+func VerifSnapshot(e *Engine) VerifInfo {
+	return VerifInfo{
+		HasTxn:     e.txn != nil,
+		TokenInUse: e.token.VerifAvailable() == 0,
+		Alive:      e.tomb.Alive(),
+		Engine:     e,
+	}
+}
+
+// VerifStreams returns the number of registered streams (no lock taken).
+func VerifStreams(e *Engine) int {
+	return len(e.streams)
+}
+
+// VerifUseTransaction exposes useTransaction.
+func VerifUseTransaction(ctx context.Context, engine *Engine, lock bool, fn func(*Transaction) (interface{}, error)) (interface{}, error) {
+	return useTransaction(ctx, engine, lock, fn)
+}
+
+// VerifSessionContext returns a context that carries the session the way
+// UseSession and WithTransaction do.
+func VerifSessionContext(ctx context.Context, s *Session) context.Context {
+	return context.WithValue(ensureContext(ctx), sessionKey{}, s)
+}
+
+func verifPoint(name string, e *Engine) {
+	h := verifLoadHook()
+	if h == nil {
+		return
+	}
+	info := VerifInfo{Goroutine: VerifGoroutineID(), Point: name}
+	if e != nil {
+		s := VerifSnapshot(e)
+		info.HasTxn, info.TokenInUse, info.Alive, info.Engine = s.HasTxn, s.TokenInUse, s.Alive, e
+	}
+	h(name, info)
+}
+
+func verifStreamPoint(name string, s *Stream) {
+	h := verifLoadHook()
+	if h == nil {
+		return
+	}
+	h(name, VerifInfo{Goroutine: VerifGoroutineID(), Point: name, Stream: s})
+}
